@@ -15,6 +15,7 @@ RULE = ("EXHAUSTIVE over: 8 bin types x threshold lists of length 1-3 in increas
         "non-trivial = the value equals a threshold, is missing or infinite.")
 EXHAUSTIVE = "the order-relation space (bin type x threshold order x value relation x entry point) is enumerated completely"
 RULE += " " + 'Part fss: complementary events give the same fractions skill score, and the temporal score equals the window reference with the documented event.'
+RULE += " " + 'Rounds 9-10: populations of the conditional axes (-m obs|fcst -x obs|fcst -agg count), same-field and cross-field.'
 ASSUMPTIONS = ["closedness at an infinite end of an interval is immaterial"]
 REQUIRED_COUNTERS = ["within_checked", "apply_threshold_checked", "get_intervals_checked", "abcd_checked",
                      "cli_rows_checked", "contract:Interval.within", "partition_checked", "prob_checked"]
